@@ -1,0 +1,25 @@
+#pragma once
+
+// Verification hooks. Everything in this header (and every use of it in the library)
+// is compiled only with -DDSPLIB_VERIF; without the define the library is unchanged.
+
+#ifdef DSPLIB_VERIF
+
+#include <vector>
+
+namespace dsplib {
+namespace verif {
+
+//lengths currently held by the calling thread's complex / real plan cache, most recently used first
+std::vector<int> fft_cache_keys();
+std::vector<int> rfft_cache_keys();
+
+//observer of plan-cache accesses (kind: 0 = complex cache, 1 = real cache); called after the access completed
+//keys/nkeys: content of that cache after the access, most recently used first; map_size: size of the index map
+using cache_cb_t = void (*)(int kind, int n, bool hit, const int* keys, int nkeys, int map_size, const void* cache_id);
+extern cache_cb_t on_cache_access;
+
+}   // namespace verif
+}   // namespace dsplib
+
+#endif
